@@ -18,7 +18,9 @@ PI = Decimal("3.14159265358979323846264338327950288419716939937510582097494")
 
 THEOREMS = ["Yaw.C02.chunks_flatten", "Yaw.C02.arraySplit_flatten", "Yaw.C02.writer_flush_complete",
             "Yaw.C02.pipeline_multiset", "Yaw.C02.arrivals_perm", "Yaw.C02.sequential_exact",
-            "Yaw.C02.pipeline_independent", "Yaw.C02.header_roundtrip", "Yaw.C02.glue_pinned"]
+            "Yaw.C02.pipeline_independent", "Yaw.C02.header_roundtrip", "Yaw.C02.glue_pinned",
+            "Yaw.C02.Grp.runs_flatten", "Yaw.C02.Grp.runs_spec", "Yaw.C02.Grp.groupby_spec", "Yaw.C02.Grp.groupby_model_spec",
+            "Yaw.C02.Grp.groupby_pinned"]
 RULE = ("catalog creation from data frames (column dtypes f8/f4/i8/i4/u1), FITS (big-endian), HDF5 and Parquet (uniform and non-uniform row groups) "
         "(several row-group sizes), lengths around multiples of the chunk size, chunk sizes 1..n+1, optional columns in "
         "all combinations, degrees/radian, patch centres / patch-index column / generated centres, 1..4 worker "
@@ -58,7 +60,7 @@ def run(prop, tier, seed, replay):
     from astropy.io import fits
     from yaw import AngularCoordinates, Catalog
 
-    ck = Check(prop, tier, seed, kernels=["k_reader"], theorems=THEOREMS, lean_modules=["YawVerif.Props.C02"], rule=RULE,
+    ck = Check(prop, tier, seed, kernels=["k_reader"], theorems=THEOREMS, lean_modules=["YawVerif.Props.C02", "YawVerif.Props.C02Groupby"], rule=RULE,
                assumptions=["np.argsort/np.unique/np.split group the records of a chunk by patch id (order within a group "
                             "unspecified: multisets are compared)",
                             "multiprocessing.Pool.map delivers every part exactly once",
@@ -220,6 +222,22 @@ def run(prop, tier, seed, replay):
             expect.append(("header", (1 | 2 | (4 if has_w else 0) | (8 if has_z else 0))))
             reqs.append(f"s{ci} split {workers} {min(n, c)}")
             expect.append(("split", [len(x) for x in np.array_split(np.arange(min(n, c)), workers)]))
+        # ---- groupby (the splitting of a chunk by patch index): keys with gaps, single occurrences, few / many keys -----
+        from yaw.utils import groupby
+        for gi in range(12 if tier == "quick" else 120):
+            m = rng.choice([1, 2, 5, 12, 40])
+            universe = rng.choice([[0, 1, 2], [0, 2, 5], [3], [1, 4, 6, 7, 30000], list(range(8))])
+            keys = np.array([rng.choice(universe) for _ in range(m)], dtype=np.int64)
+            vals = np.arange(m, dtype=np.int64) + 100
+            got = [(int(k), sorted(int(x) for x in v)) for k, v in groupby(keys, vals)]
+            want = [(int(k), sorted(int(x) for x in vals[keys == k])) for k in sorted(set(keys.tolist()))]
+            ck.count("groupby")
+            ck.case(None, ("groupby", tuple(keys.tolist())) if len(set(keys.tolist())) >= 2 else None)
+            if got != want:
+                ck.add_violation(f"groupby(keys={keys.tolist()}) yields {got}, expected every key once with exactly its values {want}",
+                                 {"kind": "groupby", "keys": keys.tolist()})
+            reqs.append(f"g{gi} groupby {m} " + " ".join(f"{int(k)} {int(v)}" for k, v in zip(keys, vals)))
+            expect.append(("groupby", got))
     finally:
         C.remove(root)
     ans = ck.driver("GenReader", reqs)
@@ -229,4 +247,8 @@ def run(prop, tier, seed, replay):
                 ck.add_tie_break("header byte vs model", {"model": a, "impl": exp})
             if kind == "split" and [int(x) for x in a.split()] != exp:
                 ck.add_tie_break("np.array_split vs model", {"model": a, "impl": exp})
+            if kind == "groupby":
+                model = [(int(g.split(":")[0]), sorted(int(x) for x in g.split(":")[1].split(","))) for g in a.split(";") if g]
+                if model != exp:
+                    ck.add_tie_break("groupby vs model", {"model": model, "impl": exp})
     return ck.finish()
